@@ -180,7 +180,9 @@ func (m *MemMapFs) Mkdir(name string, perm os.FileMode) error {
 	m.registerWithParent(item, perm)
 	m.mu.Unlock()
 
-	return m.setFileMode(name, perm|os.ModeDir)
+	// the mode was set above, inside the critical section; looking the name up again here
+	// reported ENOENT when a concurrent Remove or Rename had already taken the directory away
+	return nil
 }
 
 func (m *MemMapFs) MkdirAll(path string, perm os.FileMode) error {
